@@ -229,7 +229,7 @@ class CohGen:
         if not t.ns and n in ('int', 'size_t'):
             return str(r.choice([0, 1, 7, 42, 100]))
         if not t.ns and n == 'double':
-            return r.choice(['0.5', '1.5', '-2.25', '1e-3', '3.0', '1.0  +  0.5', '(2.0 *\n 1.25)'])
+            return r.choice(['0.5', '1.5', '-2.25', '1e-3', '3.0', '1.0  +  0.5'] + (['(2.0 *\n 1.25)'] if self.target == 'pybind' else []))
         if not t.ns and n == 'bool':
             return r.choice(['true', 'false'])
         if not t.ns and n == 'char':
